@@ -198,7 +198,7 @@ def _get_then_raise(body: list[ast.stmt]) -> tuple[list[ast.stmt], int]:
             tgt, val = st.target, st.value
         nxt = body[i + 1] if i + 1 < len(body) else None
         if (tgt is not None and isinstance(val, ast.Call) and isinstance(val.func, ast.Attribute) and val.func.attr == "get" and 1 <= len(val.args) <= 2
-                and not val.keywords and isinstance(nxt, ast.If) and not nxt.orelse and len(nxt.body) == 1 and isinstance(nxt.body[0], ast.Raise)):
+                and not val.keywords and isinstance(nxt, ast.If) and len(nxt.body) == 1 and isinstance(nxt.body[0], ast.Raise)):
             sentinel = unparse(val.args[1]) if len(val.args) == 2 else "None"
             test = unparse(nxt.test)
             exc = nxt.body[0].exc
@@ -207,6 +207,7 @@ def _get_then_raise(body: list[ast.stmt]) -> tuple[list[ast.stmt], int]:
                     and unparse(exc.args[0]) == key and nxt.body[0].cause is None and (sentinel == "None" or sentinel.isidentifier())):
                 sub = ast.Subscript(val.func.value, val.args[0], ast.Load())
                 out.append(ast.copy_location(ast.Assign([ast.Name(tgt.id, ast.Store())], sub), st))
+                out.extend(nxt.orelse)  # `else:` after a raising body is what follows the if
                 n += 1
                 i += 2
                 continue
@@ -800,12 +801,38 @@ def _scalarize(fn: FunctionInfo, value_classes: dict[str, tuple[ClassInfo, list[
 
 
 # --------------------------------------------------------------------------- driver
+def _positional(fn: ast.FunctionDef, sig: dict[str, list[str]], keep_kw: set[tuple[str, str | None]]) -> int:
+    """keyword arguments that continue the positional ones in parameter order become positional (callee resolved by unique name), except the
+    (callee, keyword) pairs in keep_kw"""
+    own = {a.arg for a in fn.args.args + fn.args.kwonlyargs + fn.args.posonlyargs} | {n.id for n in ast.walk(fn) if isinstance(n, ast.Name) and isinstance(n.ctx, ast.Store)}
+    done = 0
+    for node in ast.walk(fn):
+        if isinstance(node, ast.Call) and isinstance(node.func, ast.Name) and node.func.id in sig and node.func.id not in own and node.keywords \
+                and not any(isinstance(a, ast.Starred) for a in node.args):
+            params = sig[node.func.id]
+            while node.keywords and node.keywords[0].arg is not None and len(node.args) < len(params) and params[len(node.args)] == node.keywords[0].arg \
+                    and (node.func.id, node.keywords[0].arg) not in keep_kw:
+                node.args.append(node.keywords.pop(0).value)
+                done += 1
+    return done
+
+
 def _restore_equivalent(repo: Repo, census: dict, report: dict[str, object]) -> None:
     """a known function whose text changed but whose canonical form (canonical.py) is that of the confirmed function is the same
     function written differently: the rules read the confirmed spelling"""
-    from .canonical import canonical_hash, signatures_of
+    from .canonical import _inline_temps as inline_temps
+    from .canonical import _shape_blocks as shape_blocks
+    from .canonical import inline_new_temps
+    from .canonical import canonical_hash, signatures_of, toward_reference
 
     sig = signatures_of({mi.relpath: mi.tree for mi in repo.modules.values()})
+    # (callee, keyword) pairs some confirmed function writes: those stay keywords, the rules read them by name
+    all_ref_kw: set[tuple[str, str | None]] = set()
+    for k_mod in census.values():
+        for src_ in k_mod.get("source", {}).values():
+            for n_ in ast.walk(ast.parse(src_)):
+                if isinstance(n_, ast.Call) and isinstance(n_.func, ast.Name):
+                    all_ref_kw |= {(n_.func.id, kw_.arg) for kw_ in n_.keywords}
     for mi in repo.modules.values():
         known = census.get(mi.name)
         if known is None:
@@ -813,6 +840,20 @@ def _restore_equivalent(repo: Repo, census: dict, report: dict[str, object]) -> 
         shas, sources = known.get("body_sha", {}), known.get("source", {})
         for fn in list(mi.functions.values()) + [m for c in mi.classes.values() for m in c.methods.values()]:
             src = sources.get(fn.qualname)
+            if src is None and sources:
+                # a new function: no reference spelling to respect; temporaries that only name the next statement's operand are substituted
+                try:
+                    k_ = inline_temps(fn.node)
+                    k_ += _positional(fn.node, sig, all_ref_kw)
+                    notes_: list[str] = []
+                    fn.node.body = shape_blocks(fn.node.body, {}, notes_)
+                    k_ += len(notes_)
+                    if k_:
+                        ast.fix_missing_locations(fn.node)
+                        report.setdefault("respelled_new_function", []).append(fn.where)  # type: ignore[union-attr]
+                except RecursionError:
+                    pass
+                continue
             if src is None or (shas.get(fn.qualname) == _body_sha(fn) and ast.dump(fn.node.args) == ast.dump(ast.parse(src).body[0].args)):  # type: ignore[attr-defined]
                 continue
             try:
@@ -820,9 +861,20 @@ def _restore_equivalent(repo: Repo, census: dict, report: dict[str, object]) -> 
                 if not isinstance(ref, ast.FunctionDef) or ast.dump(ast.Module(ref.decorator_list, [])) != ast.dump(ast.Module(fn.node.decorator_list, [])):
                     continue
                 same = canonical_hash(fn.node, sig) == canonical_hash(ref, sig)
-            except (RecursionError, ValueError, TypeError, AttributeError):
+            except RecursionError:
                 continue
             if not same:
+                try:
+                    # (explicit get-then-raise lookups first: the pair must not be split by the layout step)
+                    inline_new_temps(fn.node, ref)
+                    fn.node.body, k_g = _get_then_raise(fn.node.body)
+                    if k_g:
+                        report.setdefault("get_then_raise", []).append(f"{fn.where}: {k_g}")  # type: ignore[union-attr]
+                    notes = toward_reference(fn.node, ref, sig)
+                except RecursionError:
+                    notes = []
+                if notes:
+                    report.setdefault("respelled_toward_reference", []).append(f"{fn.where}: {', '.join(sorted(set(notes)))}")  # type: ignore[union-attr]
                 continue
             ast.increment_lineno(ref, fn.node.lineno - 1)
             parent = fn.cls.node if fn.cls is not None else mi.tree
@@ -852,11 +904,29 @@ def normalize_repo(repo: Repo) -> dict[str, object]:
                 if fn.qualname in known_funcs:
                     continue
                 cands = [o for o in missing if shas.get(o) == _body_sha(fn) and ("." in o) == (fn.cls is not None) and (fn.cls is None or o.split(".")[0] == fn.cls.name)]
+                if not cands:
+                    # the same function written differently (canonical form) under a new name
+                    from .canonical import canonical_hash, signatures_of
+
+                    sig_ = signatures_of({m_.relpath: m_.tree for m_ in repo.modules.values()})
+                    for o in sorted(missing):
+                        src_ = known.get("source", {}).get(o)
+                        if src_ is None or ("." in o) != (fn.cls is not None) or (fn.cls is not None and o.split(".")[0] != fn.cls.name):
+                            continue
+                        ref_ = ast.parse(src_).body[0]
+                        ref_.name = fn.node.name  # type: ignore[attr-defined]
+                        try:
+                            if canonical_hash(fn.node, sig_) == canonical_hash(ref_, sig_):  # type: ignore[arg-type]
+                                cands.append(o)
+                        except RecursionError:
+                            pass
                 if len(cands) == 1:
                     old = cands[0].split(".")[-1]
                     _rename_everywhere(repo, mi, fn, old)
                     missing.discard(cands[0])
                     report.setdefault("renamed_back", []).append(f"{mi.relpath}:{fn.qualname}")  # type: ignore[union-attr]
+        if report.get("renamed_back"):
+            _restore_equivalent(repo, {mi.name: known}, report)
         # ---- new constants
         consts: dict[str, ast.AST] = {}
         for _round in range(3):
